@@ -308,9 +308,59 @@ def check_role_fn(chk, m, fn, role, cfg):
     return n_success
 
 
+def _observer_by_evaluation(m, fn):
+    """Evaluate the observer on every valid ring state of a few small sizes (0 <= readi, writei < buf_len): it must answer
+    readi == writei.  Returns (ok, text), or None if the function is outside what can be evaluated."""
+    from ..paths import eval_concrete, NoValue
+    try:
+        ps = [p for p in paths.enumerate_paths(fn, m) if not paths.is_assert_fail_path(p)]
+    except AnalysisError:
+        return None
+    if not ps or any(p.ret is None for p in ps):
+        return None
+    atoms = {}
+    for p in ps:
+        for x in [c for c, t, i in p.conds] + [p.ret]:
+            for y in paths.subexprs(x):
+                if y[0] in ("ald", "ld"):
+                    f = _field(y[1], fn, m)
+                    if f in ("readi", "writei", "buf_len"):
+                        atoms[y] = f
+    if not any(f == "readi" for f in atoms.values()) or not any(f == "writei" for f in atoms.values()):
+        return None
+    n = 0
+    for L in (1, 2, 3, 5, 8, 255, 256):
+        pts = range(L) if L <= 8 else (0, 1, L - 2, L - 1)
+        for r_ in pts:
+            for w_ in pts:
+                val = {"readi": r_, "writei": w_, "buf_len": L}
+                env = {a: val[f] for a, f in atoms.items()}
+                got = None
+                try:
+                    for p in ps:
+                        if all(paths.cond_holds(cd, env) for cd in p.conds):
+                            got = eval_concrete(p.ret, env) & 1
+                            break
+                except NoValue:
+                    return None
+                if got is None:
+                    return None
+                n += 1
+                if bool(got) != (r_ == w_):
+                    return False, ("with buf_len %d, readi %d, writei %d the observer answers %s, but the ring is %s: a consumer that "
+                                   "polls it %s" % (L, r_, w_, "empty" if got else "not empty", "empty" if r_ == w_ else "not empty",
+                                                    "never fetches the bytes that are waiting" if got else "is told there is data when there is none"))
+    return True, "answers (readi == writei) on all %d valid ring states evaluated (buffer sizes 1..8, 255, 256; indices within the buffer)" % n
+
+
 def check_observer(chk, m, fn, cfg):
     """ringbuf_empty-like: returns readi == writei from two atomic loads."""
     tag = "%s[%s]" % (fn.name, cfg)
+    verdict = _observer_by_evaluation(m, fn)
+    if verdict is not None:
+        ok, detail = verdict
+        chk.ob("R4.empty-observer", tag, ok, detail, fn.loc, fn.name)
+        return
     for p in paths.enumerate_paths(fn, m):
         if paths.is_assert_fail_path(p):
             continue
